@@ -480,6 +480,8 @@ def _resize_discr(discr, newshp, offset, discr_kwargs):
     to `uniform_discr` for further specification of discretization
     parameters.
     """
+    # Do not modify the dictionary of the caller
+    discr_kwargs = dict(discr_kwargs)
     nodes_on_bdry = discr_kwargs.get('nodes_on_bdry', False)
     if np.shape(nodes_on_bdry) == ():
         nodes_on_bdry = ([(bool(nodes_on_bdry), bool(nodes_on_bdry))] *
